@@ -142,6 +142,9 @@ func canonBinary(inner string) string {
 		return "(" + inner + ")"
 	}
 	a, b := inner[:i], inner[i+len(op):]
+	if (op == "<<" || op == ">>") && b == "0" {
+		return a // shift by zero
+	}
 	if id, ac := acIdentity[op]; ac {
 		var ops []string
 		for _, x := range []string{a, b} {
